@@ -491,10 +491,74 @@ pub fn run(ctx: &Ctx) -> Report {
         st = st.merge(st7);
     }
 
+    // (8) a required name is in the signed list or it is not: the list holds near-misses of the required name instead
+    //     (the name with a suffix, with one character more or fewer, with a separator appended) whose headers are sent
+    //     too -- refused; and next to the required name itself -- accepted
+    {
+        let required: [(&str, bool); 4] = [("x-req-a", true), ("Content-Type", true), ("x-opt-c", false), ("X-Amz-Copy-Source", false)];
+        let suffixes = ["-range", "x", "-", "0", "_", ".", "-a-b-c-d-e-f", "\u{0}"];
+        let n8 = (required.len() * (suffixes.len() + 2) * 2 * 2 * 3) as u64;
+        let base8 = base2 + n_seq + 50_000_000;
+        let st8 = par_sweep(n8, |i, st| {
+            let mut x = i as usize;
+            let how = [ReqBuild::Slice, ReqBuild::VecNew, ReqBuild::VecAdd][x % 3];
+            x /= 3;
+            let carrier = if x % 2 == 0 { Carrier::Header } else { Carrier::Query };
+            x /= 2;
+            let with_exact = x % 2 == 1;
+            x /= 2;
+            let k = x % (suffixes.len() + 2);
+            let (name, always) = required[x / (suffixes.len() + 2)];
+            let lower = name.to_ascii_lowercase();
+            let near = if k < suffixes.len() {
+                format!("{}{}", lower, suffixes[k])
+            } else if k == suffixes.len() {
+                lower[..lower.len() - 1].to_string()
+            } else {
+                format!("x{}", lower)
+            };
+            if near.contains('\u{0}') {
+                return; // not a header name
+            }
+            let mut plan = e2e::base_plan(carrier);
+            plan.headers.push((name.to_string(), b"v".to_vec()));
+            plan.headers.push((near.clone(), b"n".to_vec()));
+            plan.signed.push(near.clone());
+            if with_exact {
+                plan.signed.push(lower.clone());
+            }
+            // a longer sorted list around them, so that a search in it has something to search
+            for f in ["a-first", "m-middle", "x-zz-last", "y", "z"] {
+                plan.headers.push((f.to_string(), b"f".to_vec()));
+                plan.signed.push(f.to_string());
+            }
+            let mut cfg = Cfg::basic(e2e::base_instant());
+            cfg.reqs = if always {
+                ReqSpec { always: vec![name.to_string()], if_in_request: vec![], prefixes: vec![], how: Some(how) }
+            } else {
+                ReqSpec { always: vec![], if_in_request: vec![name.to_string()], prefixes: vec![], how: Some(how) }
+            };
+            let case = Case { wire: WireReq::from_wire(&build(&plan).wire), cfg, prov: ProvSpec::standard() };
+            let before = st.violations.len();
+            let j = e2e::judge_into(base8 + i as u64, &case, st);
+            if st.violations.len() > before {
+                if let Some(v) = st.violations.last_mut() {
+                    v.what = format!("near-miss-of-a-required-name(required {:?}, signed {:?}{}):{}", name, near, if with_exact { " and the name itself" } else { "" }, v.what);
+                }
+            }
+            if !crate::env::ambient_b() && !j.unspecified && j.reference.accepted() != with_exact && !matches!(j.sut, crate::sut::SutResult::Unbuildable(_)) {
+                crate::core::machinery_error(&format!("C05 (8): reference verdict for required {:?} / signed {:?} exact={} is {:?}", name, near, with_exact, j.reference.error));
+            }
+            st.state(&(name, with_exact, j.reference.accepted(), "near-miss-names"));
+            st.nontrivial(&(name, near, with_exact, carrier, how as u8, "near-miss-names"));
+        });
+        st = st.merge(st8);
+    }
+
     Report {
         stats: st,
         rule: format!(
-            "64 requirement sets (always ⊆ {{x-req-a, Content-Type}}, if-in-request ⊆ {{x-opt-c, ETag}}, prefixes ⊆ {{x-p-, X-Amz}}) x {} letter-case styles x {} ways of building the requirements (slice, VecSignedHeaderRequirements::new, add_*, add_* then remove_* of decoys) x every subset of 7 optional request headers (one of them named exactly like the declared prefix x-p-; values rotate through empty, blank and non-empty; for every second case each header is repeated as a query parameter of the same name and value) x every signed subset of the present headers and x-amz-date x {{host, :authority, neither}}; every request is correctly signed over exactly the list it declares, so only the requirement rules can refuse it. Oracle: reference verifier (Ok iff host/:authority signed, every always-header signed, every present conditional header signed, every present header matching a prefix — including x-amz-date and authorization-related ones — signed; otherwise SignatureDoesNotMatch/403 and an empty provider log). plus every sequence of up to {} add_*/remove_* operations over three names (two of them case variants of each other) on VecSignedHeaderRequirements, compared with a set model of what was declared; plus signed-header lists as multisets (a name repeated once / twice, every entry doubled, a name of a header not sent, as many repeats as there are unsigned sent headers) x 64 requirement sets x 15 header presence sets x every signed subset; plus 256 requirement sets whose declarations overlap (names declared always / conditionally required that also fall under a declared prefix, x-amz-date declared conditional, one name in two categories) x every presence subset of 5 headers x every signed subset x x-amz-date signed or not; plus a form POST with an empty and a dot path segment signed correctly under each of the 4 readings (folded or not, S3 path or normalised) x the server running each of the 4 option sets x 64 requirement sets x every signed subset of its 5 headers and x-amz-date x carrier (a signature good for another reading of the request never excuses an unsigned mandatory header); plus a header named <prefix><c>[tag] for every character c a header name may contain (51), unsigned and signed, under two declared prefixes, requirements built three ways. states = (requirement set, accepted)",
+            "64 requirement sets (always ⊆ {{x-req-a, Content-Type}}, if-in-request ⊆ {{x-opt-c, ETag}}, prefixes ⊆ {{x-p-, X-Amz}}) x {} letter-case styles x {} ways of building the requirements (slice, VecSignedHeaderRequirements::new, add_*, add_* then remove_* of decoys) x every subset of 7 optional request headers (one of them named exactly like the declared prefix x-p-; values rotate through empty, blank and non-empty; for every second case each header is repeated as a query parameter of the same name and value) x every signed subset of the present headers and x-amz-date x {{host, :authority, neither}}; every request is correctly signed over exactly the list it declares, so only the requirement rules can refuse it. Oracle: reference verifier (Ok iff host/:authority signed, every always-header signed, every present conditional header signed, every present header matching a prefix — including x-amz-date and authorization-related ones — signed; otherwise SignatureDoesNotMatch/403 and an empty provider log). plus every sequence of up to {} add_*/remove_* operations over three names (two of them case variants of each other) on VecSignedHeaderRequirements, compared with a set model of what was declared; plus signed-header lists as multisets (a name repeated once / twice, every entry doubled, a name of a header not sent, as many repeats as there are unsigned sent headers) x 64 requirement sets x 15 header presence sets x every signed subset; plus 256 requirement sets whose declarations overlap (names declared always / conditionally required that also fall under a declared prefix, x-amz-date declared conditional, one name in two categories) x every presence subset of 5 headers x every signed subset x x-amz-date signed or not; plus a form POST with an empty and a dot path segment signed correctly under each of the 4 readings (folded or not, S3 path or normalised) x the server running each of the 4 option sets x 64 requirement sets x every signed subset of its 5 headers and x-amz-date x carrier (a signature good for another reading of the request never excuses an unsigned mandatory header); plus a header named <prefix><c>[tag] for every character c a header name may contain (51), unsigned and signed, under two declared prefixes, requirements built three ways; plus, for 4 required names (always / conditional), a signed list of 7 sorted names that holds a near-miss of the required name (10 kinds: a suffix, one character more or fewer, a separator appended, a character prepended) with or without the name itself. states = (requirement set, accepted)",
             if thorough { 3 } else { 3 }, n_build, depth
         ),
         bounds: json!({"requirement_sets": 64, "shapes": n_shapes, "cases": total}),
